@@ -176,7 +176,15 @@ pub fn oracle_files(ctx: &mut Ctx) {
         let w = crate::cli::work_dir("c04stdout");
         for _ in 0..(ctx.n / 4).max(10) {
             let case = gen_case(&mut rng, Profile::Any, false, 9);
-            let fv = gen_flags(&mut rng);
+            // two thirds of the flag vectors without a strip / keep policy, so that the re-wrapped file of stage 2 keeps
+            // both inserted chunks and really is "not improvable, but written differently"
+            let mut fv = gen_flags(&mut rng);
+            if rng.chance(2, 3) {
+                for _ in 0..20 {
+                    if !fv.tokens.iter().any(|t| t == "s" || t.starts_with("strip=") || t.starts_with("keep=")) { break; }
+                    fv = gen_flags(&mut rng);
+                }
+            }
             std::fs::write(w.join("in.png"), &case.input).unwrap();
             let _ = std::fs::remove_file(w.join("s1.png"));
             let mut a1 = fv.args.clone();
@@ -201,9 +209,17 @@ pub fn oracle_files(ctx: &mut Ctx) {
                 }
             }
             std::fs::write(w.join("in2.png"), &stage2).unwrap();
+            // ... from a file, or - a third of the time - from standard input (which implies standard output)
+            let via_stdin = rng.chance(1, 2);
             let mut a2 = fv.args.clone();
-            a2.extend(["-q".to_string(), "--stdout".to_string(), "in2.png".to_string()]);
-            let r2 = run_bin(&w, &a2);
+            let r2 = if via_stdin {
+                a2.extend(["-q".to_string(), "-".to_string()]);
+                st.count("stdout_via_stdin");
+                crate::cli::run_bin_stdin(&w, &a2, &stage2)
+            } else {
+                a2.extend(["-q".to_string(), "--stdout".to_string(), "in2.png".to_string()]);
+                run_bin(&w, &a2)
+            };
             st.count("stdout_cases");
             st.count(&format!("stdout_{}", shape));
             let replay = format!("{{\"args\": {}, \"input_png_hex\": {}}}", jstr(&a2.join(" ")), jstr(&crate::img::hex(&stage2)));
